@@ -6,7 +6,8 @@ use crate::rng::*;
 use crate::simnet::*;
 use crate::Cases;
 use dht::verif::*;
-use dht::{Id, Node};
+use dht::{Id, MutableItem, Node};
+use ed25519_dalek::SigningKey;
 
 fn nats(v: &[usize]) -> String {
     format!("[{}]", v.iter().map(|x| format!("{}%nat", x)).collect::<Vec<_>>().join(";"))
@@ -16,11 +17,52 @@ fn value_of(key: usize) -> Vec<u8> {
     format!("stored value for key {}", key).into_bytes()
 }
 
+/// the data kind of a key: 0 immutable, 1 mutable (salted), 2 announce_peer, 3 announce_signed_peer
+fn kind_of(key: usize) -> usize {
+    key % 4
+}
+
+fn signer_of(key: usize) -> SigningKey {
+    let mut b = [0u8; 32];
+    b[0] = key as u8;
+    b[1] = (key >> 8) as u8;
+    b[31] = 0x5a;
+    SigningKey::from_bytes(&b)
+}
+
+fn salt_of(key: usize) -> Vec<u8> {
+    format!("salt-{}", key).into_bytes()
+}
+
 fn target_of(key: usize) -> Id {
-    let v = value_of(key);
-    let mut b = format!("{}:", v.len()).into_bytes();
-    b.extend_from_slice(&v);
-    Id::from(crate::c03::sha1(&b))
+    match kind_of(key) {
+        0 => {
+            let v = value_of(key);
+            let mut b = format!("{}:", v.len()).into_bytes();
+            b.extend_from_slice(&v);
+            Id::from(crate::c03::sha1(&b))
+        }
+        1 => MutableItem::target_from_key(&signer_of(key).verifying_key().to_bytes(), Some(&salt_of(key))),
+        _ => Id::from(crate::c03::sha1(format!("info hash {}", key).as_bytes())),
+    }
+}
+
+fn put_request(net: &Net, w: usize, key: usize, seq: i64) -> PutRequestSpecific {
+    let target = target_of(key);
+    match kind_of(key) {
+        0 => PutRequestSpecific::PutImmutable(PutImmutableRequestArguments { target, v: value_of(key).into() }),
+        1 => {
+            let v = format!("mutable value {} seq {}", key, seq).into_bytes();
+            let item = MutableItem::new(&signer_of(key), &v, seq, Some(&salt_of(key)));
+            PutRequestSpecific::PutMutable(PutMutableRequestArguments::from(item, None))
+        }
+        2 => PutRequestSpecific::AnnouncePeer(AnnouncePeerRequestArguments { info_hash: target, port: 6000 + key as u16, implied_port: None }),
+        _ => {
+            let _ = (net, w);
+            let a = SignedAnnounce::new(&signer_of(key), &target);
+            PutRequestSpecific::AnnounceSignedPeer(AnnounceSignedPeerRequestArguments { info_hash: target, t: a.timestamp(), k: *a.key(), sig: *a.signature() })
+        }
+    }
 }
 
 pub enum Ev {
@@ -30,6 +72,8 @@ pub enum Ev {
     Crash(usize),
     Put(usize, usize),
     Get(usize, usize),
+    /// put (seq 2) and get of a mutable key on the same node in the same instant
+    PutGet(usize, usize),
 }
 
 impl Ev {
@@ -39,8 +83,11 @@ impl Ev {
             Ev::Dead => "EDead".into(),
             Ev::Lookup(j, f) => format!("ELookup {}%nat {}", j, boolean(*f)),
             Ev::Crash(j) => format!("ECrash {}%nat", j),
+            Ev::Put(w, k) if kind_of(*k) == 3 => format!("EPutS {}%nat {}%nat", w, k),
+            Ev::Get(r, k) if kind_of(*k) == 3 => format!("EGetS {}%nat {}%nat", r, k),
             Ev::Put(w, k) => format!("EPut {}%nat {}%nat", w, k),
             Ev::Get(r, k) => format!("EGet {}%nat {}%nat", r, k),
+            Ev::PutGet(r, k) => format!("EPutGet {}%nat {}%nat", r, k),
         }
     }
 }
@@ -49,14 +96,22 @@ fn holders(net: &Net, key: usize) -> Vec<usize> {
     let t = target_of(key);
     (0..net.nodes.len())
         .filter(|i| match &net.nodes[*i].m {
-            Some(m) if net.nodes[*i].up => m.actor.verif_server_dump().immutable.iter().any(|(id, _)| *id == t),
+            Some(m) if net.nodes[*i].up => {
+                let d = m.actor.verif_server_dump();
+                match kind_of(key) {
+                    0 => d.immutable.iter().any(|(id, _)| *id == t),
+                    1 => d.mutable.iter().any(|(id, _)| *id == t),
+                    2 => d.peers.iter().any(|(id, l)| *id == t && !l.is_empty()),
+                    _ => d.signed_peers.iter().any(|(id, l)| *id == t && !l.is_empty()),
+                }
+            }
             _ => false,
         })
         .collect()
 }
 
 /// run one event; returns (flag, stored)
-fn run_event(net: &mut Net, ev: &Ev) -> (Option<bool>, Vec<usize>) {
+fn run_event(net: &mut Net, ev: &Ev, seqs: &mut std::collections::HashMap<usize, i64>) -> (Option<bool>, Vec<usize>) {
     match ev {
         Ev::Join(server, boots) => {
             let j = net.spawn(*server, boots, &[]);
@@ -90,8 +145,8 @@ fn run_event(net: &mut Net, ev: &Ev) -> (Option<bool>, Vec<usize>) {
             if !net.nodes[*w].up {
                 return (None, holders(net, *key));
             }
-            let v = value_of(*key);
-            let request = PutRequestSpecific::PutImmutable(PutImmutableRequestArguments { target: target_of(*key), v: v.into() });
+            seqs.insert(*key, 1);
+            let request = put_request(net, *w, *key, 1);
             let (tx, rx) = flume::unbounded();
             net.nodes[*w].m.as_mut().unwrap().actor.verif_put(request, tx, None);
             net.quiesce();
@@ -102,18 +157,101 @@ fn run_event(net: &mut Net, ev: &Ev) -> (Option<bool>, Vec<usize>) {
             if !net.nodes[*r].up {
                 return (None, holders(net, *key));
             }
-            let (tx, rx) = flume::unbounded::<Box<[u8]>>();
-            let req = GetRequestSpecific::GetValue(GetValueRequestArguments { target: target_of(*key), seq: None, salt: None });
-            net.nodes[*r].m.as_mut().unwrap().actor.verif_get(req, ResponseSender::Immutable(tx));
+            let rx = start_get(net, *r, *key);
             net.quiesce();
-            let want = value_of(*key);
-            let mut found = false;
-            while let Ok(v) = rx.try_recv() {
-                if v.to_vec() == want {
-                    found = true;
+            (Some(rx.found(net, *key, i64::MAX)), holders(net, *key))
+        }
+        Ev::PutGet(r, key) => {
+            if !net.nodes[*r].up {
+                return (None, holders(net, *key));
+            }
+            let own_seq = seqs.get(key).copied().unwrap_or(1) + 1;
+            seqs.insert(*key, own_seq);
+            let request = put_request(net, *r, *key, own_seq);
+            let (tx, _rx) = flume::unbounded();
+            net.nodes[*r].m.as_mut().unwrap().actor.verif_put(request, tx, None);
+            let rx = start_get(net, *r, *key);
+            net.quiesce();
+            // found = an item that was stored before (lower seq) reached the reader; its own in-flight item does not count
+            (Some(rx.found(net, *key, own_seq)), holders(net, *key))
+        }
+    }
+}
+
+enum GetRx {
+    Imm(flume::Receiver<Box<[u8]>>),
+    Mt(flume::Receiver<MutableItem>),
+    Peers(flume::Receiver<Vec<std::net::SocketAddrV4>>),
+    Signed(flume::Receiver<Vec<SignedAnnounce>>),
+}
+
+impl GetRx {
+    fn found(&self, _net: &Net, key: usize, below_seq: i64) -> bool {
+        let mut found = false;
+        match self {
+            GetRx::Imm(rx) => {
+                let want = value_of(key);
+                while let Ok(v) = rx.try_recv() {
+                    if v.to_vec() == want {
+                        found = true;
+                    }
                 }
             }
-            (Some(found), holders(net, *key))
+            GetRx::Mt(rx) => {
+                let pk = signer_of(key).verifying_key().to_bytes();
+                while let Ok(it) = rx.try_recv() {
+                    let want = format!("mutable value {} seq {}", key, it.seq()).into_bytes();
+                    if *it.key() == pk && it.value() == &want[..] && it.seq() >= 1 && it.seq() < below_seq {
+                        found = true;
+                    }
+                }
+            }
+            GetRx::Peers(rx) => {
+                while let Ok(v) = rx.try_recv() {
+                    if v.iter().any(|a| a.port() == 6000 + key as u16 && *a.ip() == std::net::Ipv4Addr::new(127, 0, 0, 1)) {
+                        found = true;
+                    }
+                }
+            }
+            GetRx::Signed(rx) => {
+                let pk = signer_of(key).verifying_key().to_bytes();
+                while let Ok(v) = rx.try_recv() {
+                    if v.iter().any(|a| *a.key() == pk) {
+                        found = true;
+                    }
+                }
+            }
+        }
+        found
+    }
+}
+
+fn start_get(net: &mut Net, r: usize, key: usize) -> GetRx {
+    let target = target_of(key);
+    let actor = &mut net.nodes[r].m.as_mut().unwrap().actor;
+    match kind_of(key) {
+        0 => {
+            let (tx, rx) = flume::unbounded();
+            actor.verif_get(GetRequestSpecific::GetValue(GetValueRequestArguments { target, seq: None, salt: None }), ResponseSender::Immutable(tx));
+            GetRx::Imm(rx)
+        }
+        1 => {
+            let (tx, rx) = flume::unbounded();
+            actor.verif_get(
+                GetRequestSpecific::GetValue(GetValueRequestArguments { target, seq: None, salt: Some(salt_of(key).into()) }),
+                ResponseSender::Mutable(tx),
+            );
+            GetRx::Mt(rx)
+        }
+        2 => {
+            let (tx, rx) = flume::unbounded();
+            actor.verif_get(GetRequestSpecific::GetPeers(GetPeersRequestArguments { info_hash: target }), ResponseSender::Peers(tx));
+            GetRx::Peers(rx)
+        }
+        _ => {
+            let (tx, rx) = flume::unbounded();
+            actor.verif_get(GetRequestSpecific::GetSignedPeers(GetPeersRequestArguments { info_hash: target }), ResponseSender::SignedPeers(tx));
+            GetRx::Signed(rx)
         }
     }
 }
@@ -121,18 +259,24 @@ fn run_event(net: &mut Net, ev: &Ev) -> (Option<bool>, Vec<usize>) {
 pub fn run_case(r: &mut Rng, evs: Vec<Ev>) -> String {
     let mut net = Net::new(r);
     let mut steps: Vec<String> = Vec::new();
+    let mut seqs = std::collections::HashMap::new();
     for ev in evs.iter() {
-        let (flag, stored) = run_event(&mut net, ev);
+        let prev: Vec<usize> = match ev {
+            Ev::Put(_, k) | Ev::Get(_, k) | Ev::PutGet(_, k) => holders(&net, *k),
+            _ => vec![],
+        };
+        let (flag, stored) = run_event(&mut net, ev, &mut seqs);
         let tabs: Vec<String> = (0..net.nodes.len()).map(|i| format!("({}, {})", nats(&net.table(i)), nats(&net.signed_table(i)))).collect();
         steps.push(format!(
-            "({}, {{| b_tables := [{}]; b_flag := {}; b_stored := {} |}})",
+            "({}, {{| b_tables := [{}]; b_flag := {}; b_stored := {}; b_prev := {} |}})",
             ev.coq(),
             tabs.join("; "),
             match flag {
                 Some(b) => format!("(Some {})", boolean(b)),
                 None => "None".into(),
             },
-            nats(&stored)
+            nats(&stored),
+            nats(&prev)
         ));
     }
     format!("KNet [{}]", steps.join("; "))
@@ -211,19 +355,36 @@ pub fn store_plan(r: &mut Rng, n_servers: usize, n_clients: usize) -> Vec<Ev> {
     let mut alive: Vec<bool> = vec![true; count];
     let mut key = 0usize;
     let mut keys_put: Vec<usize> = Vec::new();
-    for _ in 0..(6 + r.below(6)) {
-        match r.below(6) {
-            0 | 1 => {
+    // (node, key) pairs that already ran a lookup for the key: their next put of it would use the cached nodes
+    let mut touched: Vec<(usize, usize)> = Vec::new();
+    for _ in 0..(8 + r.below(8)) {
+        match r.below(8) {
+            0 | 1 | 2 => {
                 let w = *r.pick(&all);
                 key += 1;
                 evs.push(Ev::Put(w, key));
                 keys_put.push(key);
+                touched.push((w, key));
             }
-            2 | 3 | 4 => {
+            3 | 4 | 5 => {
                 if let Some(k) = keys_put.last().copied() {
                     let k = if r.chance(1, 3) { *r.pick(&keys_put) } else { k };
                     let rd = *r.pick(&all);
                     evs.push(Ev::Get(rd, k));
+                    touched.push((rd, k));
+                }
+            }
+            6 => {
+                // a reader with its own put for the same (mutable, salted) key in flight
+                let muts: Vec<usize> = keys_put.iter().copied().filter(|k| kind_of(*k) == 1).collect();
+                if !muts.is_empty() {
+                    let k = *r.pick(&muts);
+                    let cands: Vec<usize> = all.iter().copied().filter(|n| alive[*n] && !touched.contains(&(*n, k))).collect();
+                    if !cands.is_empty() {
+                        let rd = *r.pick(&cands);
+                        evs.push(Ev::PutGet(rd, k));
+                        touched.push((rd, k));
+                    }
                 }
             }
             _ => {
